@@ -66,6 +66,13 @@ type verifC38Sim struct {
 	stakeChangeAt   int // rewardEpochs value at the last stake change after >= 1 reward epoch
 	stakeChanged    bool
 	ntClaim         bool
+
+	focusRewards             bool
+	touchedSinceUpdate       bool // a paying claim / stake change happened since the last updateRewards
+	repeatedUpdate           bool
+	repeatedUpdateAfterTouch bool
+	ntRepeated               bool // paying claim after a repeated update that followed a claim/stake change
+	pending                  []verifC38Finding
 }
 
 func verifC38Big(v int64) []byte { return big.NewInt(v).Bytes() }
@@ -205,7 +212,9 @@ func (s *verifC38Sim) decode() *verifC38Decoded {
 // check evaluates the five clauses on the committed state.
 func (s *verifC38Sim) check() []verifC38Finding {
 	d := s.decode()
-	out := append([]verifC38Finding(nil), d.problems...)
+	out := append([]verifC38Finding(nil), s.pending...)
+	s.pending = nil
+	out = append(out, d.problems...)
 	if d.global == nil || d.global.TotalActive == nil || d.global.TotalUnStaked == nil {
 		out = append(out, verifC38Finding{"C38:global-fund-undecodable", "GlobalFundData missing or not decodable"})
 		return out
@@ -244,13 +253,19 @@ type verifC38Op struct {
 
 func (o verifC38Op) String() string {
 	switch o.Kind {
-	case "delegate", "unDelegate", "updateRewards", "changeServiceFee", "modifyTotalDelegationCap", "advanceEpoch":
+	case "updateRewards":
+		if o.Flag {
+			return fmt.Sprintf("updateRewards-sameEpoch(%d)", o.Value)
+		}
+		return fmt.Sprintf("updateRewards(%d)", o.Value)
+	case "delegate", "unDelegate", "changeServiceFee", "modifyTotalDelegationCap", "advanceEpoch":
 		return fmt.Sprintf("%s(a%d, %d)", o.Kind, o.Actor, o.Value)
 	case "addNodes", "stakeNodes", "unStakeNodes", "unBondNodes", "reStakeUnStakedNodes", "removeNodes":
 		return fmt.Sprintf("%s(a%d, nodes %v)", o.Kind, o.Actor, o.Keys)
 	case "setAutomaticActivation", "setCheckCapOnReDelegateRewards":
 		return fmt.Sprintf("%s(a%d, %v)", o.Kind, o.Actor, o.Flag)
 	}
+
 	return fmt.Sprintf("%s(a%d)", o.Kind, o.Actor)
 }
 
@@ -276,16 +291,38 @@ func (s *verifC38Sim) apply(op verifC38Op) (verifVMAResult, error) {
 		s.hist = append(s.hist, fmt.Sprintf("e%d", w.epoch))
 		return verifVMAResult{}, nil
 	case "updateRewards":
-		if s.rewardedEpoch[w.epoch] {
-			// the protocol calls updateRewards once per epoch: move on to the next epoch first
+		if s.rewardedEpoch[w.epoch] && !op.Flag {
+			// usual case (the protocol calls updateRewards once per epoch): move on to the next epoch first.
+			// op.Flag = a further call in the same epoch: the contract only checks the caller
 			w.setEpoch(w.epoch + 1)
 		}
 		res, err = w.run(vm.EndOfEpochAddress, s.scAddr, "updateRewards", big.NewInt(op.Value))
 		if err == nil && res.Code == vmcommon.Ok {
-			s.rewardedEpoch[w.epoch] = true
+			// "rewards received" = what was transferred to the contract with each accepted call, whatever the
+			// contract records about it (a further call in the same epoch replaces the epoch's record)
 			s.rewardsReceived.Add(s.rewardsReceived, big.NewInt(op.Value))
-			s.rewardEpochs++
+			if s.rewardedEpoch[w.epoch] {
+				s.repeatedUpdate = true
+				if s.touchedSinceUpdate {
+					s.repeatedUpdateAfterTouch = true
+				}
+			} else {
+				s.rewardEpochs++
+			}
+			s.rewardedEpoch[w.epoch] = true
+			s.touchedSinceUpdate = false
 		}
+	case "claimAll":
+		// every actor claims in turn (each claim is a transaction of its own and is checked like any other)
+		for i := range s.actors {
+			if _, errClaim := s.apply(verifC38Op{Kind: "claimRewards", Actor: i}); errClaim != nil {
+				return res, errClaim
+			}
+			if f := s.check(); len(f) > 0 {
+				s.pending = append(s.pending, f...)
+			}
+		}
+		return verifVMAResult{}, nil
 	case "delegate":
 		res, err = w.run(actor, s.scAddr, "delegate", big.NewInt(op.Value))
 	case "unDelegate":
@@ -337,6 +374,12 @@ func (s *verifC38Sim) apply(op verifC38Op) (verifVMAResult, error) {
 		s.noteStakeChange()
 	case "claimRewards":
 		s.rewardsPaid.Add(s.rewardsPaid, paid)
+		if paid.Sign() > 0 {
+			if s.repeatedUpdateAfterTouch && s.rewardedEpoch[w.epoch] {
+				s.ntRepeated = true
+			}
+			s.touchedSinceUpdate = true
+		}
 		if paid.Sign() > 0 && s.stakeChanged && s.rewardEpochs > s.stakeChangeAt && s.rewardEpochs >= 2 {
 			s.ntClaim = true
 		}
@@ -353,6 +396,7 @@ func (s *verifC38Sim) apply(op verifC38Op) (verifVMAResult, error) {
 }
 
 func (s *verifC38Sim) noteStakeChange() {
+	s.touchedSinceUpdate = true
 	if s.rewardEpochs >= 1 {
 		s.stakeChanged = true
 		s.stakeChangeAt = s.rewardEpochs
@@ -387,7 +431,18 @@ func (s *verifC38Sim) genOp(rt *rapid.T) verifC38Op {
 		"reDelegateRewards", "reDelegateRewards",
 		"updateRewards", "updateRewards", "updateRewards", "updateRewards", "updateRewards", "updateRewards", "updateRewards",
 		"advanceEpoch", "advanceEpoch", "advanceEpoch",
-		"changeServiceFee", "ownerNodes", "ownerConfig",
+		"changeServiceFee", "ownerNodes", "ownerConfig", "claimAll",
+	}
+	if s.focusRewards {
+		// short reward-centred histories: little accumulated slack between "received" and "paid"
+		kinds = []string{
+			"delegate", "delegate", "delegate",
+			"unDelegate", "unDelegate",
+			"claimRewards", "claimRewards", "claimRewards", "claimRewards", "claimRewards",
+			"reDelegateRewards",
+			"updateRewards", "updateRewards", "updateRewards", "updateRewards", "updateRewards", "updateRewards",
+			"advanceEpoch", "withdraw", "changeServiceFee", "claimAll", "claimAll",
+		}
 	}
 	kind := rapid.SampledFrom(kinds).Draw(rt, "op")
 	op := verifC38Op{Kind: kind}
@@ -413,6 +468,9 @@ func (s *verifC38Sim) genOp(rt *rapid.T) verifC38Op {
 		op.Actor = s.pickActor(rt, func(d verifC38Delegator, _ int) bool { return d.exists && d.active.Sign() > 0 })
 	case "updateRewards":
 		op.Value = rapid.SampledFrom([]int64{0, 1, 7, 100, 999, 1000, 12345, 12345, 1000003, 1000003}).Draw(rt, "rewards")
+		// a further call in an epoch that already had one: 1 in 4 (1 in 2 in the reward-centred test)
+		again := rapid.IntRange(0, 3).Draw(rt, "sameEpoch")
+		op.Flag = again == 0 || (s.focusRewards && again == 1)
 	case "advanceEpoch":
 		op.Value = int64(rapid.IntRange(1, 3).Draw(rt, "epochs"))
 	case "changeServiceFee":
@@ -477,48 +535,69 @@ func verifC38Report(c *kit.Case, findings []verifC38Finding, s *verifC38Sim) {
 	}
 }
 
+func verifC38Case(rt *rapid.T, c *kit.Case, focus bool) {
+	cfg := verifC38GenCfg(rt)
+	var s *verifC38Sim
+	var err error
+	c.NoPanic("C38:panic:init", func() { s, err = verifC38NewSim(cfg) })
+	if err != nil {
+		rt.Fatalf("fixture: %v (config %s)", err, cfg)
+	}
+	s.focusRewards = focus
+	verifC38Report(c, s.check(), s)
+	step := func(op verifC38Op) {
+		var res verifVMAResult
+		var errRun error
+		c.NoPanic("C38:panic:"+op.Kind, func() { res, errRun = s.apply(op) })
+		if errRun != nil {
+			rt.Fatalf("fixture: %v", errRun)
+		}
+		if op.Kind != "advanceEpoch" && op.Kind != "claimAll" {
+			if res.Code == vmcommon.Ok {
+				c.Class("ok:" + op.Kind)
+			} else {
+				c.Class("rejected:" + op.Kind)
+			}
+		}
+		if op.Kind == "updateRewards" && op.Flag && res.Code == vmcommon.Ok {
+			c.Class("updateRewards-in-an-epoch-that-had-one")
+		}
+		verifC38Report(c, s.check(), s)
+	}
+	rt.Repeat(map[string]func(*rapid.T){
+		"op": func(rt *rapid.T) { step(s.genOp(rt)) },
+	})
+	// settlement: everybody claims, so that the totals are compared with as little unclaimed slack as possible
+	step(verifC38Op{Kind: "claimAll"})
+	if s.ntWithdraw {
+		c.Class("nt:undelegate-epoch-withdraw")
+	}
+	if s.ntClaim {
+		c.Class("nt:claim-after-2-reward-epochs-with-stake-change")
+	}
+	if s.ntRepeated {
+		c.Class("nt:paying-claim-after-repeated-update-following-a-claim-or-stake-change")
+	}
+	nt := s.ntWithdraw && s.ntClaim
+	if focus {
+		nt = s.ntRepeated
+	}
+	if nt {
+		c.NonTrivial(strings.Join(s.hist, ";"))
+		c.Sample("config %s history: %s", s.cfg, strings.Join(s.hist, " ; "))
+	}
+}
+
 func TestVerifC38_Histories(t *testing.T) {
 	kit.Run(t, "C38", kit.Budget{Quick: 400, Thorough: 4000, Steps: 55},
-		"one delegation contract (owner + 2-4 delegators) over the real validator/staking contracts and vmContext; histories of delegate (amounts around the minimum, node-price sized), unDelegate (partial, full, leaving dust, too much), withdraw, claimRewards, reDelegateRewards, updateRewards by the end-of-epoch caller (at most once per epoch), epoch advances 1-3, changeServiceFee, owner node operations (0-2 nodes) and config changes; unbond period 0-3 epochs; flags staking-v2-late / re-delegate-below-min / unbond-tokens-v2 / delegation-manager drawn per case; the five clauses are evaluated on the decoded committed storage after every call; non-trivial = history with unDelegate -> later epoch -> withdraw that pays out AND a paying claimRewards after >= 2 reward epochs with a stake change between reward epochs",
-		func(rt *rapid.T, c *kit.Case) {
-			cfg := verifC38GenCfg(rt)
-			var s *verifC38Sim
-			var err error
-			c.NoPanic("C38:panic:init", func() { s, err = verifC38NewSim(cfg) })
-			if err != nil {
-				rt.Fatalf("fixture: %v (config %s)", err, cfg)
-			}
-			verifC38Report(c, s.check(), s)
-			rt.Repeat(map[string]func(*rapid.T){
-				"op": func(rt *rapid.T) {
-					op := s.genOp(rt)
-					var res verifVMAResult
-					var errRun error
-					c.NoPanic("C38:panic:"+op.Kind, func() { res, errRun = s.apply(op) })
-					if errRun != nil {
-						rt.Fatalf("fixture: %v", errRun)
-					}
-					if op.Kind != "advanceEpoch" {
-						if res.Code == vmcommon.Ok {
-							c.Class("ok:" + op.Kind)
-						} else {
-							c.Class("rejected:" + op.Kind)
-						}
-					}
-					verifC38Report(c, s.check(), s)
-				},
-			})
-			if s.ntWithdraw {
-				c.Class("nt:undelegate-epoch-withdraw")
-			}
-			if s.ntClaim {
-				c.Class("nt:claim-after-2-reward-epochs-with-stake-change")
-			}
-			if s.ntWithdraw && s.ntClaim {
-				c.NonTrivial(strings.Join(s.hist, ";"))
-				c.Sample("config %s history: %s", s.cfg, strings.Join(s.hist, " ; "))
-			}
-		})
+		"one delegation contract (owner + 2-4 delegators) over the real validator/staking contracts and vmContext; histories of delegate (amounts around the minimum, node-price sized), unDelegate (partial, full, leaving dust, too much), withdraw, claimRewards, reDelegateRewards, claim-by-everybody, updateRewards by the end-of-epoch caller (usually once per epoch, 1 in 4 a further call in the same epoch), epoch advances 1-3, changeServiceFee, owner node operations (0-2 nodes) and config changes; everybody claims at the end; unbond period 0-3 epochs; flags staking-v2-late / re-delegate-below-min / unbond-tokens-v2 / delegation-manager drawn per case; the five clauses are evaluated on the decoded committed storage after every call; non-trivial = history with unDelegate -> later epoch -> withdraw that pays out AND a paying claimRewards after >= 2 reward epochs with a stake change between reward epochs",
+		func(rt *rapid.T, c *kit.Case) { verifC38Case(rt, c, false) })
+}
+
+func TestVerifC38_RewardHistories(t *testing.T) {
+	kit.Run(t, "C38", kit.Budget{Quick: 1200, Thorough: 12000, Steps: 18},
+		"same fixture and oracle, short reward-centred histories (~18 calls: delegate, unDelegate, claimRewards, reDelegateRewards, claim-by-everybody, updateRewards with every second call repeated inside the same epoch, few epoch advances), everybody claims at the end; non-trivial = a paying claim in an epoch whose reward call was repeated after somebody had claimed or changed stake",
+		func(rt *rapid.T, c *kit.Case) { verifC38Case(rt, c, true) })
 }
 
 func TestVerifC38_Regress(t *testing.T) {
